@@ -30,12 +30,17 @@ package icstate
 //@   modifies a.snapshot
 //@   ensures [dirty] a.snapshot == nil
 
+// removed_amount / removed_from: the result and the account of the last RemoveUnstake
+//@ smt all (declare-ghost removed_amount Int)
+//@ smt all (declare-ghost removed_from Int)
 //@ spec unstakesOk(us) = forall i int :: {us[i]} 0 <= i && i < len(us) ==> us[i] != nil && us[i].Value != nil
 //@ func (a *AccountState) RemoveUnstake(height) (ra, err)
 //@   arith int
 //@   requires a != nil && unstakesOk(a.unstakes)
 //@   modifies a.unstakes, a.snapshot, ghost(unstake_seen)
 //@   callpre GetValue: u.Expire == height
+//@   opt ghost:removed_amount ra
+//@   opt ghost:removed_from a
 //@   ensures [sum_of_expired] err == nil ==> ra != nil && fresh(ra) && big(ra) == ghost(unstake_seen) - old(ghost(unstake_seen))
 //@   ensures [kept_on_error] err != nil ==> a.unstakes == old(a.unstakes) && a.snapshot == old(a.snapshot)
 //@   ensures [only_on_expiry] err == nil ==> len(a.unstakes) < old(len(a.unstakes))
@@ -58,9 +63,15 @@ package icstate
 //@   pure
 //@   requires a != nil && a.totalBond != nil && a.totalDelegation != nil && a.totalUnbond != nil && allocated(a.totalBond) && allocated(a.totalDelegation) && allocated(a.totalUnbond)
 //@   ensures [sum] r != nil && fresh(r) && big(r) == big(a.totalBond) + big(a.totalDelegation) + big(a.totalUnbond)
-//@ func (a *accountData) GetVotingPower() (r)
+//@   opt ghost:using_ver ghost(acct_ver)
+//@   opt ghost:using_val big(r)
+//@ func (a accountData) Stake() (r)
 //@   arith int
 //@   pure
+//@   ensures [field] r == a.stake
+//@ func (a *accountData) GetVotingPower() (r)
+//@   arith int
+//@   modifies ghost(using_ver), ghost(using_val)
 //@   requires a != nil && a.stake != nil && a.totalBond != nil && a.totalDelegation != nil && a.totalUnbond != nil && allocated(a.stake) && allocated(a.totalBond) && allocated(a.totalDelegation) && allocated(a.totalUnbond)
 //@   ensures [rest] r != nil && fresh(r) && big(r) == big(a.stake) - (big(a.totalBond) + big(a.totalDelegation) + big(a.totalUnbond))
 
@@ -74,8 +85,49 @@ package icstate
 //@   ensures [kept] err != nil ==> a.stake == old(a.stake)
 
 // a P-Rep counts for the network totals exactly while its status is Active
+// (active_q / active_res: the P-Rep status last asked and the answer - callers are checked for using
+// this answer, and no other predicate, when they add to the network totals)
+//@ smt all (declare-ghost active_q Int)
+//@ smt all (declare-ghost active_res Bool)
 //@ func (ps *prepStatusData) IsActive() (r)
 //@   arith int
 //@   pure
 //@   requires ps != nil
 //@   ensures [status] r == (ps.status == Active)
+//@   opt ghost:active_q owner(ps)
+//@   opt ghost:active_res r
+
+// the state as seen by the staking operations of package iiss (trusted; acct_q / acct_q_addr: the
+// account state last handed out and the address it was asked for; acct_ver counts changes of bonds
+// and unbonds, using_ver / using_val record when UsingStake was last asked and what it answered)
+//@ smt all (declare-ghost acct_q Int)
+//@ smt all (declare-ghost acct_q_addr Iface)
+//@ smt all (declare-ghost acct_ver Int)
+//@ smt all (declare-ghost using_ver Int)
+//@ smt all (declare-ghost using_val Int)
+//@ func (s *State) GetAccountState(addr) (r)
+//@   trusted
+//@   modifies *
+//@   ensures r != nil
+//@   opt ghost:acct_q r
+//@   opt ghost:acct_q_addr addr
+//@ func (s *State) GetPRepStatusByOwner(owner, createIfNotExist) (r)
+//@   trusted
+//@   modifies *
+//@ func (s *State) SetTotalDelegation(value) (err)
+//@   trusted
+//@   modifies *
+//@ func (s *State) SetTotalBond(value) (err)
+//@   trusted
+//@   modifies *
+//@ func (a *AccountState) SetBonds(bonds)
+//@   trusted
+//@   modifies *
+//@   opt ghost:acct_ver ghost(acct_ver) + 1
+//@ func (a *AccountState) UpdateUnbonds(bondDelta, expireHeight) (tl, err)
+//@   trusted
+//@   modifies *
+//@   opt ghost:acct_ver ghost(acct_ver) + 1
+//@ func ScheduleTimerJob(t, info, address)
+//@   trusted
+//@   modifies *
